@@ -49,11 +49,12 @@ fn c04_bigbed_section_span() {
 // @mem 16
 // @functions bigbedwrite::process_val (acceptance checks and the accepted path up to section hand-off)
 // @bounds one call from the empty per-chromosome state; all coordinates and the chromosome length full u32 width; items_per_slot = 2
-// @stubs tokio Handle::spawn -> run now; mpsc Sender::poll_ready/start_send -> always ready FIFO log; alloc::fmt::format -> empty string
+// @stubs tokio Handle::spawn -> run now; mpsc Sender::poll_ready/start_send -> always ready FIFO log; alloc::fmt::format -> empty string; index_list::IndexList -> 6-slot sequence model (support.rs ilist) by one source substitution of the `use` line
+// @sub src/bbi/bigbedwrite.rs ::: use index_list::IndexList; ::: use crate::verif_support::ilist::IndexList;
 // @cut refusal as seen through write()/JoinHandles; unknown chromosome / chromosome order (closures inside write_vals)
 // @witness cover: accepted and each refusal class reachable
 #[kani::proof]
-#[kani::unwind(4)]
+#[kani::unwind(8)]
 #[kani::stub(tokio::runtime::Handle::spawn, fake_spawn)]
 #[kani::stub(futures::channel::mpsc::Sender::poll_ready, fake_poll_ready)]
 #[kani::stub(futures::channel::mpsc::Sender::start_send, fake_start_send)]
@@ -157,4 +158,188 @@ fn c02_bigbed_section_layout() {
     kani::cover!(c1, "zero-length entry at 0");
     let c2 = e1 < e0;
     kani::cover!(c2, "nested entry");
+}
+
+
+// @harness c06_bigbed_depth_sweep
+// @props C06
+// @tier quick
+// @kind core
+// @timeout 1800
+// @mem 24
+// @functions bigbedwrite::process_val (coverage-depth sweep `add_interval_to_summary`), two consecutive calls from the empty per-chromosome state
+// @bounds 2 entries (the second is the last of the chromosome), coordinates in 0..=12, start-sorted, any overlap relation (disjoint, touching, partially overlapping, nested, identical, zero-length); items_per_slot 4
+// @stubs tokio Handle::spawn -> counted/discarded; mpsc Sender -> always-ready log; alloc::fmt::format -> empty; index_list::IndexList -> 6-slot sequence model (support.rs ilist) by one source substitution of the `use` line
+// @sub src/bbi/bigbedwrite.rs ::: use index_list::IndexList; ::: use crate::verif_support::ilist::IndexList;
+// @cut cross-chromosome accumulation; more than 2 entries; coordinates > 12 (the sweep compares and subtracts coordinates only)
+// @witness cover: partially overlapping entries; nested entries; disjoint entries
+#[kani::proof]
+#[kani::unwind(14)]
+#[kani::stub(tokio::runtime::Handle::spawn, fake_spawn_skip)]
+#[kani::stub(futures::channel::mpsc::Sender::poll_ready, fake_poll_ready)]
+#[kani::stub(futures::channel::mpsc::Sender::start_send, fake_start_send)]
+#[kani::stub(alloc::fmt::format, fake_format)]
+fn c06_bigbed_depth_sweep() {
+    let (s0, e0, s1, e1): (u32, u32, u32, u32) = (kani::any(), kani::any(), kani::any(), kani::any());
+    kani::assume(s0 <= e0 && s1 <= e1 && s0 <= s1 && e0 <= 12 && e1 <= 12);
+    let mut env = Env::new();
+    let chrom = String::new();
+    let mut summary: Option<Summary> = None;
+    let mut items: Vec<BedEntry> = Vec::with_capacity(4);
+    let mut overlap: IndexList<Value> = IndexList::new();
+    let mut options = BBIWriteOptions::default();
+    options.items_per_slot = 4;
+    options.compress = false;
+    let handle: &tokio::runtime::Handle = env.handle();
+    let second = entry(s1, e1);
+    let r0 = poll_once(process_val(entry(s0, e0), Some(&second), 100, &chrom, &mut summary, &mut items, &mut overlap, &options, handle, &mut env.tx, 7));
+    let ok0 = match &r0 { Some(Ok(())) => true, _ => false };
+    core::mem::forget(r0);
+    let r1 = poll_once(process_val(entry(s1, e1), None, 100, &chrom, &mut summary, &mut items, &mut overlap, &options, handle, &mut env.tx, 7));
+    let ok1 = match &r1 { Some(Ok(())) => true, _ => false };
+    core::mem::forget(r1);
+    assert!(ok0 && ok1, "[accepted] valid entries refused");
+    // oracle: per-base coverage depth on 0..12
+    let mut bases: u64 = 0;
+    let mut sum: u64 = 0;
+    let mut sumsq: u64 = 0;
+    let mut mn: u64 = 99;
+    let mut mx: u64 = 0;
+    let mut x: u32 = 0;
+    while x < 12 {
+        let d = ((s0 <= x && x < e0) as u64) + ((s1 <= x && x < e1) as u64);
+        if d > 0 {
+            bases += 1;
+            sum += d;
+            sumsq += d * d;
+            if d < mn { mn = d; }
+            if d > mx { mx = d; }
+        }
+        x += 1;
+    }
+    let (gb, gmn, gmx, gs, gq, some) = match &summary {
+        Some(s) => (s.bases_covered, s.min_val, s.max_val, s.sum, s.sum_squares, true),
+        None => (0, 0.0, 0.0, 0.0, 0.0, false),
+    };
+    if bases == 0 {
+        assert!(!some || gb == 0, "[empty] bases counted although nothing is covered");
+    } else {
+        assert!(some, "[present] covered bases but no summary");
+        assert!(gb == bases, "[bases] covered bases: each covered base must be counted exactly once");
+        assert!(gs == sum as f64, "[sum] sum of depth over covered bases");
+        assert!(gq == sumsq as f64, "[sumsq] sum of squared depth");
+        assert!(gmn == mn as f64 && gmx == mx as f64, "[minmax] min/max depth");
+    }
+    let c1 = (s1 < e0) & (e1 > e0) & (s0 < s1);
+    kani::cover!(c1, "partially overlapping");
+    let c2 = (s0 < s1) & (e1 < e0);
+    kani::cover!(c2, "nested");
+    let c3 = (e0 < s1) & (s0 < e0) & (s1 < e1);
+    kani::cover!(c3, "disjoint");
+    core::mem::forget(items);
+    core::mem::forget(overlap);
+    core::mem::forget(second);
+    core::mem::forget(chrom);
+}
+
+fn depth_at(x: u32, s0: u32, e0: u32, s1: u32, e1: u32) -> u64 {
+    ((s0 <= x && x < e0) as u64) + ((s1 <= x && x < e1) as u64)
+}
+
+// @harness c08_bigbed_zoom_two_entries
+// @props C08
+// @tier quick
+// @kind core
+// @timeout 2400
+// @mem 32
+// @functions bigbedwrite::process_val_zoom (coverage sweep + tiling into zoom records), two consecutive calls from the empty per-chromosome state, one zoom level
+// @bounds 2 entries with coordinates in 0..=9, start-sorted, any overlap relation; a third entry far to the right (start 12) keeps the chromosome open; resolution 3; items_per_slot 8 (no mid-way flush)
+// @stubs tokio Handle::spawn -> counted/discarded; mpsc Sender -> always-ready log; Vec::push -> push within capacity (asserted); index_list::IndexList -> 6-slot sequence model by one source substitution of the `use` line
+// @sub src/bbi/bigbedwrite.rs ::: use index_list::IndexList; ::: use crate::verif_support::ilist::IndexList;
+// @cut end-of-chromosome flush (see c08_bigbed_zoom_last); more than 2 entries; other resolutions; f32 narrowing (c09_zoom_section_layout)
+// @witness cover: partially overlapping entries; a gap longer than the resolution; nested entries
+#[kani::proof]
+#[kani::unwind(12)]
+#[kani::stub(tokio::runtime::Handle::spawn, fake_spawn_skip)]
+#[kani::stub(futures::channel::mpsc::Sender::poll_ready, fake_poll_ready)]
+#[kani::stub(futures::channel::mpsc::Sender::start_send, fake_start_send)]
+#[kani::stub(alloc::vec::Vec::push, push_within_capacity)]
+fn c08_bigbed_zoom_two_entries() {
+    let size: u32 = 3;
+    let (s0, e0, s1, e1): (u32, u32, u32, u32) = (kani::any(), kani::any(), kani::any(), kani::any());
+    kani::assume(s0 <= e0 && s1 <= e1 && s0 <= s1 && e0 <= 9 && e1 <= 9);
+    let mut env = Env::new();
+    let (ztx, _zrx) = futures::channel::mpsc::channel::<Msg>(4);
+    let mut zoom_items = Vec::with_capacity(1);
+    zoom_items.push(ZoomItem { size, live_info: None, overlap: IndexList::new(), records: Vec::with_capacity(8), channel: ztx });
+    let mut options = BBIWriteOptions::default();
+    options.items_per_slot = 8;
+    options.compress = false;
+    let handle: &tokio::runtime::Handle = env.handle();
+    let second = entry(s1, e1);
+    let far = entry(12, 13);
+    let r0 = poll_once(process_val_zoom(&mut zoom_items, &options, s0, e0, Some(&second), handle, 7));
+    let ok0 = match &r0 { Some(Ok(())) => true, _ => false };
+    core::mem::forget(r0);
+    let r1 = poll_once(process_val_zoom(&mut zoom_items, &options, s1, e1, Some(&far), handle, 7));
+    let ok1 = match &r1 { Some(Ok(())) => true, _ => false };
+    core::mem::forget(r1);
+    assert!(ok0 && ok1, "[total] process_val_zoom failed or suspended");
+    assert!(env.spawned() == 0, "[no_flush] nothing may be flushed before the slot is full or the chromosome ends");
+    let zi = &zoom_items[0];
+    assert!(zi.overlap.len() == 0, "[swept] coverage left of the next entry must be fully swept into records");
+    let n = zi.records.len();
+    assert!(n <= 5, "[count] more records than 10 bases at resolution 3 can need");
+    // oracle totals
+    let mut tot_bases: u64 = 0;
+    let mut x: u32 = 0;
+    while x < 10 {
+        if depth_at(x, s0, e0, s1, e1) > 0 { tot_bases += 1; }
+        x += 1;
+    }
+    let mut got_bases: u64 = 0;
+    let mut prev_end: u32 = 0;
+    let mut first = true;
+    let mut i = 0;
+    while i <= n {
+        let rec: Option<ZoomRecord> = if i < n { Some(zi.records[i]) } else { zi.live_info.map(|l| l.0) };
+        if let Some(rec) = rec {
+            assert!(rec.start < rec.end && rec.end <= 10, "[nonempty] empty or out-of-range zoom record");
+            assert!(rec.end - rec.start <= size, "[resolution] record longer than the level's resolution");
+            assert!(first || rec.start >= prev_end, "[order] records overlap or are out of order");
+            // statistics of the depth function inside the record's span
+            let (mut b, mut sm, mut sq, mut mn, mut mx): (u64, u64, u64, u64, u64) = (0, 0, 0, 99, 0);
+            let mut x: u32 = 0;
+            while x < 10 {
+                if rec.start <= x && x < rec.end {
+                    let d = depth_at(x, s0, e0, s1, e1);
+                    if d > 0 {
+                        b += 1; sm += d; sq += d * d;
+                        if d < mn { mn = d; }
+                        if d > mx { mx = d; }
+                    }
+                }
+                x += 1;
+            }
+            assert!(rec.summary.bases_covered == b, "[bases] a record's covered-base count differs from the covered bases in its span (uncovered bases counted, or covered ones missed)");
+            assert!(b > 0, "[useless] a record without any covered base");
+            assert!(rec.summary.sum == sm as f64, "[sum] a record's sum differs from the depth inside its span");
+            assert!(rec.summary.sum_squares == sq as f64, "[sumsq] sum of squares");
+            assert!(rec.summary.min_val == mn as f64 && rec.summary.max_val == mx as f64, "[minmax] min/max depth");
+            got_bases += b;
+            prev_end = rec.end;
+            first = false;
+        }
+        i += 1;
+    }
+    assert!(got_bases == tot_bases, "[exactly_once] every covered base must lie in exactly one record");
+    let c1 = (s0 < s1) & (s1 < e0) & (e0 < e1);
+    kani::cover!(c1, "partially overlapping");
+    let c2 = (e0 < s1) & (s1 - e0 > 3) & (s0 < e0) & (s1 < e1);
+    kani::cover!(c2, "gap longer than the resolution");
+    let c3 = (s0 < s1) & (e1 < e0) & (s1 < e1);
+    kani::cover!(c3, "nested");
+    core::mem::forget(zoom_items);
+    core::mem::forget(second);
+    core::mem::forget(far);
 }
